@@ -851,6 +851,115 @@ func runC10(c *Ctx) {
 
 	// ---------- R9 listings as given: the cursor protocol of filelist (shared with C16.R1) ----------
 	c.withRule("R9", func() { checkListingCursor(c) })
+
+	// ---------- R10 what the handler returned is what is sent: the library completes a copy of a handler's reply object
+	// (shared with C02.R2) ----------
+	c.withRule("R10", func() { checkResponseObjectsPrivate(c, "R2") })
+
+	// ---------- R11 attributes as given: encoded when the handler returns, not when the reply is written ----------
+	checkRepliesFixedWhenHandlerReturns(c, "R11")
+}
+
+// checkRepliesFixedWhenHandlerReturns (R11): a reply is marshalled by the packet manager's controller after it was
+// queued, and queuing it already lets the next request run.  A handler's os.FileInfo kept inside the reply object is
+// therefore asked for Size/Mode/ModTime after later requests were served (the example backend's FileInfo is the live
+// file: FSTAT, WRITE, FSTAT pipelined reports the size after the write twice).  So, in every function that asks a
+// handler for a listing (invokes ListerAt.ListAt):
+//   - no FileInfo value is converted to an empty interface (the []any{fi} of a NAME entry is marshalled later);
+//   - every sshFxpStatResponse built there gets its encoded attributes stored (field attrs) from marshalFileInfo;
+// and the marshaller of sshFxpStatResponse reads the FileInfo only where those bytes are absent.
+func checkRepliesFixedWhenHandlerReturns(c *Ctx, rule string) {
+	p := c.P
+	isFileInfo := func(t types.Type) bool {
+		n := namedOf(t)
+		return n != nil && n.Obj().Name() == "FileInfo" && n.Obj().Pkg() != nil && (n.Obj().Pkg().Path() == "io/fs" || n.Obj().Pkg().Path() == "os")
+	}
+	nFn := 0
+	for _, fn := range p.LibFuncs() {
+		if outermost(fn).Package() != p.Sftp {
+			continue
+		}
+		asks := false
+		eachInstr(fn, func(in ssa.Instruction) {
+			if cc := callOf(in); cc != nil && cc.IsInvoke() && cc.Method.Name() == "ListAt" {
+				asks = true
+			}
+		})
+		if !asks {
+			continue
+		}
+		nFn++
+		c.looked(fnName(fn))
+		bad := ""
+		eachInstr(fn, func(in ssa.Instruction) {
+			switch x := in.(type) {
+			case *ssa.ChangeInterface:
+				if isFileInfo(x.X.Type()) {
+					if it, ok := x.Type().Underlying().(*types.Interface); ok && it.NumMethods() == 0 {
+						bad = p.Pos(x.Pos())
+					}
+				}
+			case *ssa.MakeInterface:
+				if isFileInfo(x.X.Type()) {
+					bad = p.Pos(x.Pos())
+				}
+			}
+		})
+		c.check(bad == "", rule, fnName(fn)+": no handler FileInfo goes into a reply as an untyped value", p.Pos(fn.Pos()), "entries carry encoded attributes",
+			"a FileInfo obtained from the handler is put into the reply as is (at "+bad+"): its attributes are read when the controller writes the reply, after later requests may have changed the file, and disagree with the long name formatted now")
+		// stat responses built here
+		eachInstr(fn, func(in ssa.Instruction) {
+			a, ok := in.(*ssa.Alloc)
+			if !ok || typeName(a.Type()) != "sshFxpStatResponse" {
+				return
+			}
+			encoded := false
+			for _, r := range *a.Referrers() {
+				fa, ok := r.(*ssa.FieldAddr)
+				if !ok {
+					continue
+				}
+				if _, name, _, _ := fieldOf(fa); name != "attrs" {
+					continue
+				}
+				for _, rr := range *fa.Referrers() {
+					if st, ok := rr.(*ssa.Store); ok {
+						if call, ok := st.Val.(*ssa.Call); ok && calleeName(&call.Call) == "marshalFileInfo" {
+							encoded = true
+						}
+					}
+				}
+			}
+			c.check(encoded, rule, fnName(fn)+": ATTRS reply carries attributes encoded now", p.Pos(a.Pos()), "attrs = marshalFileInfo(...)",
+				"the ATTRS reply built from the handler's FileInfo holds only the FileInfo: its attributes are read when the controller writes the reply, after later requests (FSTAT, WRITE, FSTAT pipelined: the first FSTAT reports the size after the write)")
+		})
+	}
+	c.check(nFn >= 2, rule, "functions that ask a handler for a listing", "?", fmt.Sprintf("%d functions", nFn), fmt.Sprintf("only %d found (filelist, filestat expected)", nFn))
+
+	mp := p.Func("(*sshFxpStatResponse).marshalPacket")
+	if mp == nil {
+		c.missing(rule, "(*sshFxpStatResponse).marshalPacket")
+		return
+	}
+	for _, in := range callsWhere(mp, func(cc *ssa.CallCommon) bool { return calleeName(cc) == "marshalFileInfo" }) {
+		guarded := false
+		for b := in.Block(); b != nil && !guarded; b = b.Idom() {
+			for _, pred := range b.Preds {
+				for cv, truth := range edgeConds(b, pred) {
+					bo, ok := cv.(*ssa.BinOp)
+					if !ok {
+						continue
+					}
+					if u, ok := bo.X.(*ssa.UnOp); ok && isNilConst(bo.Y) {
+						if _, name, _, ok := fieldOf(u.X); ok && name == "attrs" && ((bo.Op == token.EQL && truth) || (bo.Op == token.NEQ && !truth)) {
+							guarded = true
+						}
+					}
+				}
+			}
+		}
+		c.check(guarded, rule, "(*sshFxpStatResponse).marshalPacket reads the FileInfo only without encoded attributes", p.Pos(in.Pos()), "under attrs == nil", "the marshaller asks the FileInfo although the response carries encoded attributes: the request server's ATTRS replies report the state at write time")
+	}
 }
 
 func ptrNamed(p *Program, name string) types.Type {
